@@ -559,6 +559,7 @@ Section Steps.
     o_incs o' = close_at (last_open id (o_incs o)) w (o_incs o) -> is_open w = false ->
     o_now o' = o_now o -> o_dropped o' = o_dropped o -> (o_eof o = true -> o_eof o' = true) ->
     (forall e, In e (s_inflight s) -> e_id e <> id ->
+       (forall hr, In hr (s_handlers s) -> h_h hr <> e_h e) ->
        (pend_id o = Some (e_id e) \/ c_err (o_v o) = true) ->
        (pend_id o' = Some (e_id e) \/ c_err (o_v o') = true)) ->
     (c_err (o_v o') = false -> c_err (o_v o) = false) ->
@@ -984,10 +985,9 @@ Section Steps.
       assert (Ho : owns o s k e).
       { exists hr, y. rewrite C1 in A. rewrite C4 in F. rewrite F1 in D. rewrite F2 in F.
         repeat split; auto.
-        - pose proof (Hop y E). exact H.
-        - intros k' oi'' Hlt Hoi''.
-          assert (nth_error (o_incs o') k' = Some (f oi'')) by (rewrite Hincs, nth_error_map, Hoi''; reflexivity).
-          destruct (Hf oi'') as (Z1 & _). rewrite <- Z1, <- F1. eapply G; eauto. }
+        intros k' oi'' Hlt Hoi''.
+        assert (nth_error (o_incs o') k' = Some (f oi'')) by (rewrite Hincs, nth_error_map, Hoi''; reflexivity).
+        destruct (Hf oi'') as (Z1 & _). rewrite <- Z1. eapply G; eauto. }
       destruct (Hmaybe y Hm) as [L|R]; [|left; exact R].
       destruct (u_maybe _ _ HI k e y He Ho Hy L) as [L'|R']; [left; lia|right; exact R'].
     - intros Hce e He Hno. rewrite T5 in Hce. rewrite C3 in He. rewrite C1 in Hno. rewrite C4.
@@ -996,5 +996,138 @@ Section Steps.
       + exfalso. destruct (Hall Hce Hne Hce e He) as (k & hr & oi & A & B & C & _).
         apply (Hno hr); [eapply nth_error_In; eauto|exact C].
     - rewrite C5, C2. exact (u_abfresh _ _ HI).
+  Qed.
+
+  (* ---- the application side: one handler changes state, one incarnation's phase/done change -- *)
+  Lemma InvU_hupd : forall o o' (s s' : st) k g,
+    InvU o s ->
+    map h_h (s_handlers s') = map h_h (s_handlers s) ->
+    o_incs o' = upd_nth k g (o_incs o) ->
+    (forall i, oi_id (g i) = oi_id i /\ oi_when (g i) = oi_when i
+               /\ (oi_wire (g i) = oi_wire i
+                   \/ (oi_wire i = WOpen /\ oi_wire (g i) = WMaybe /\ In (oi_id i) (s_cancels s')))) ->
+    (forall j hr' oi', nth_error (s_handlers s') j = Some hr' -> nth_error (o_incs o') j = Some oi' ->
+                       oi_id oi' = h_id hr' /\ phase_ok (h_st hr') (oi_ph oi') /\ done_ok (h_st hr') (oi_done oi')) ->
+    (forall id, In id (s_cancels s) -> In id (s_cancels s')) ->
+    o_now o' = o_now o -> o_dropped o' = o_dropped o -> (o_eof o = true -> o_eof o' = true) ->
+    pend_id o' = pend_id o -> c_err (o_v o') = c_err (o_v o) ->
+    s_next_h s' = s_next_h s -> s_inflight s' = s_inflight s -> s_timers s' = s_timers s ->
+    s_aborted s' = s_aborted s -> s_now s' = s_now s -> s_dropped s' = s_dropped s ->
+    s_fused s' = s_fused s ->
+    InvU o' s'.
+  Proof.
+    intros o o' s s' k g HI Hmap Hincs Hg Hhand Hcan Hnow Hdr Heof Hp Hce Hn Hi Ht Hab Hw Hd Hf.
+    assert (Hlen : length (s_handlers s') = length (s_handlers s)).
+    { rewrite <- (map_length h_h), Hmap, map_length. reflexivity. }
+    assert (HnthH : forall j hr', nth_error (s_handlers s') j = Some hr' ->
+               exists hr, nth_error (s_handlers s) j = Some hr /\ h_h hr = h_h hr').
+    { intros j hr' Hj.
+      assert (E : nth_error (map h_h (s_handlers s')) j = Some (h_h hr')) by (rewrite nth_error_map, Hj; reflexivity).
+      rewrite Hmap, nth_error_map in E. destruct (nth_error (s_handlers s) j) as [hr|]; cbn in E; [|discriminate].
+      inversion E. eauto. }
+    assert (HnthH' : forall j hr, nth_error (s_handlers s) j = Some hr ->
+               exists hr', nth_error (s_handlers s') j = Some hr' /\ h_h hr = h_h hr').
+    { intros j hr Hj.
+      assert (E : nth_error (map h_h (s_handlers s)) j = Some (h_h hr)) by (rewrite nth_error_map, Hj; reflexivity).
+      rewrite <- Hmap, nth_error_map in E. destruct (nth_error (s_handlers s') j) as [hr'|]; cbn in E; [|discriminate].
+      inversion E. eauto. }
+    assert (HinH : forall hr', In hr' (s_handlers s') -> exists hr, In hr (s_handlers s) /\ h_h hr = h_h hr').
+    { intros hr' Hin. apply In_nth_error in Hin. destruct Hin as (j & Hj).
+      destruct (HnthH _ _ Hj) as (hr & A & B). exists hr. split; [eapply nth_error_In; eauto|exact B]. }
+    assert (HinH' : forall hr, In hr (s_handlers s) -> exists hr', In hr' (s_handlers s') /\ h_h hr = h_h hr').
+    { intros hr Hin. apply In_nth_error in Hin. destruct Hin as (j & Hj).
+      destruct (HnthH' _ _ Hj) as (hr' & A & B). exists hr'. split; [eapply nth_error_In; eauto|exact B]. }
+    assert (HnthO : forall j x, nth_error (o_incs o') j = Some x ->
+               exists y, nth_error (o_incs o) j = Some y
+                         /\ oi_id x = oi_id y /\ oi_when x = oi_when y
+                         /\ (oi_wire x = oi_wire y
+                             \/ (oi_wire y = WOpen /\ oi_wire x = WMaybe /\ In (oi_id y) (s_cancels s')))).
+    { intros j x Hx. rewrite Hincs in Hx. destruct (Nat.eq_dec k j) as [->|Hne].
+      - destruct (nth_error (o_incs o) j) as [y|] eqn:Ey.
+        + rewrite (upd_nth_same _ _ _ _ Ey) in Hx. inversion Hx; subst x. exists y.
+          destruct (Hg y) as (G1 & G2 & G3). auto.
+        + rewrite (upd_nth_none _ _ _ Ey) in Hx. congruence.
+      - rewrite (upd_nth_other _ _ _ _ Hne) in Hx. exists x. auto. }
+    assert (HnthO' : forall j y, nth_error (o_incs o) j = Some y ->
+               exists x, nth_error (o_incs o') j = Some x
+                         /\ oi_id x = oi_id y /\ oi_when x = oi_when y
+                         /\ (oi_wire x = oi_wire y
+                             \/ (oi_wire y = WOpen /\ oi_wire x = WMaybe /\ In (oi_id y) (s_cancels s')))).
+    { intros j y Hy. rewrite Hincs. destruct (Nat.eq_dec k j) as [->|Hne].
+      - rewrite (upd_nth_same _ _ _ _ Hy). exists (g y). destruct (Hg y) as (G1 & G2 & G3). auto.
+      - rewrite (upd_nth_other _ _ _ _ Hne). exists y. auto. }
+    assert (Hopen_eq : forall x y, (oi_wire x = oi_wire y
+                             \/ (oi_wire y = WOpen /\ oi_wire x = WMaybe /\ In (oi_id y) (s_cancels s'))) ->
+                       is_open (oi_wire x) = is_open (oi_wire y)).
+    { intros x y [E|(E1 & E2 & _)]; [rewrite E; reflexivity|rewrite E1, E2; reflexivity]. }
+    constructor.
+    - rewrite Hincs, upd_nth_length, Hlen. exact (u_len _ _ HI).
+    - rewrite Hnow, Hw. exact (u_now _ _ HI).
+    - rewrite Hdr, Hd. exact (u_dropped _ _ HI).
+    - rewrite Hf. intros F. apply Heof. exact (u_eof _ _ HI F).
+    - intros j hr' oi' Hj Hoi'. destruct (Hhand j hr' oi' Hj Hoi') as (A & B & C).
+      repeat split; auto. rewrite Hn.
+      destruct (HnthH _ _ Hj) as (hr & Hhr & E). destruct (HnthO _ _ Hoi') as (y & Hy & _).
+      destruct (u_hand _ _ HI j hr y Hhr Hy) as (_ & _ & _ & D). congruence.
+    - rewrite Hmap. exact (u_hnodup _ _ HI).
+    - rewrite Hi. exact (u_enodup _ _ HI).
+    - rewrite Hi. exact (u_idnodup _ _ HI).
+    - rewrite Hi, Hn. exact (u_efresh _ _ HI).
+    - rewrite Hi, Ht. exact (u_timers _ _ HI).
+    - intros k1 k2 x1 x2 H1 H2 Hid Ho1 Ho2.
+      destruct (HnthO _ _ H1) as (y1 & Hy1 & I1 & _ & W1). destruct (HnthO _ _ H2) as (y2 & Hy2 & I2 & _ & W2).
+      rewrite (Hopen_eq _ _ W1) in Ho1. rewrite (Hopen_eq _ _ W2) in Ho2.
+      apply (u_one_open _ _ HI k1 k2 y1 y2); auto; congruence.
+    - intros j x Hx Hwx. destruct (HnthO _ _ Hx) as (y & Hy & _ & E2 & W). rewrite E2, Hw.
+      destruct W as [W|(_ & W & _)]; [|congruence].
+      apply (u_open_young _ _ HI j y Hy). congruence.
+    - intros e He. rewrite Hi in He.
+      destruct (u_owner _ _ HI e He) as [[j (hr & oi & A & B & C & D & E & F & G)]|[Hx Hy]].
+      + left. exists j. destruct (HnthH' _ _ A) as (hr' & A' & Eh). destruct (HnthO' _ _ B) as (x & B' & I & Wn & W).
+        exists hr', x. rewrite Ht. repeat split; auto; try congruence.
+        * rewrite (Hopen_eq _ _ W). exact E.
+        * intros k' oi' Hlt Hoi'. destruct (HnthO _ _ Hoi') as (y' & Hy' & I' & _). rewrite I'. eapply G; eauto.
+      + right. rewrite Hp, Hce. split; [exact Hx|].
+        intros hr' Hin'. destruct (HinH _ Hin') as (hr & Hin & E). rewrite <- E. apply Hy. exact Hin.
+    - intros j hr' x Hj Hx Hin. rewrite Hab in Hin. rewrite Hd.
+      destruct (HnthH _ _ Hj) as (hr & Hhr & E). destruct (HnthO _ _ Hx) as (y & Hy & _ & _ & W).
+      rewrite <- E in Hin.
+      destruct (u_aborted _ _ HI j hr y Hhr Hy Hin) as [L|R]; [left|right; exact R].
+      destruct W as [W|(_ & W & _)]; congruence.
+    - intros j e x He (hr' & x' & A & B & C & D & E & F & G) Hx Hm. rewrite Hw.
+      rewrite Hi in He. rewrite B in Hx. inversion Hx; subst x'.
+      destruct (HnthH _ _ A) as (hr & Hhr & Eh). destruct (HnthO _ _ B) as (y & Hy & I & Wn & W).
+      rewrite Wn, I.
+      destruct W as [W|(W1 & W2 & W3)]; [|right; exact W3].
+      assert (Ho : owns o s j e).
+      { exists hr, y. rewrite Ht in F. repeat split; auto; try congruence.
+        intros k' oi'' Hlt Hoi''. destruct (HnthO' _ _ Hoi'') as (x'' & Hx'' & I'' & _).
+        rewrite <- I''. eapply G; eauto. }
+      destruct (u_maybe _ _ HI j e y He Ho Hy) as [L|R]; [congruence|left; exact L|right; auto].
+    - intros Hce' e He Hno. rewrite Hce in Hce'. rewrite Hi in He. rewrite Ht, Hw.
+      apply (u_pend_timer _ _ HI Hce' e He).
+      intros hr Hin. destruct (HinH' _ Hin) as (hr' & Hin' & E). rewrite E. apply Hno. exact Hin'.
+    - rewrite Hab, Hn. exact (u_abfresh _ _ HI).
+  Qed.
+
+  (* dropping the channel aborts everything tracked *)
+  Lemma InvU_drop_channel : forall o o' (s s' : st),
+    InvU o s ->
+    s_aborted s' = map e_h (s_inflight s) ++ s_aborted s -> s_dropped s' = true -> o_dropped o' = true ->
+    o_incs o' = o_incs o -> o_now o' = o_now o -> (o_eof o = true -> o_eof o' = true) ->
+    pend_id o' = pend_id o -> c_err (o_v o') = c_err (o_v o) ->
+    s_handlers s' = s_handlers s -> s_next_h s' = s_next_h s -> s_inflight s' = s_inflight s ->
+    s_timers s' = s_timers s -> s_cancels s' = s_cancels s -> s_now s' = s_now s ->
+    s_fused s' = s_fused s ->
+    InvU o' s'.
+  Proof.
+    intros o o' s s' HI Hab Hd Hdr Hincs Hnow Heof Hp Hce Hh Hn Hi Ht Hc Hw Hf. destruct HI.
+    constructor; rewrite ?Hincs, ?Hnow, ?Hp, ?Hce, ?Hh, ?Hn, ?Hi, ?Ht, ?Hc, ?Hw, ?Hf; auto.
+    - congruence.
+    - intros e He. destruct (u_owner0 e He) as [[k Hk]|Hx]; [left; exists k|right; exact Hx].
+      eapply owns_frame; eauto.
+    - intros k e oi Hin Ho. apply (u_maybe0 k e oi); auto. eapply owns_frame; [| | |exact Ho]; auto.
+    - intros h Hin. rewrite Hab in Hin. apply in_app_or in Hin. destruct Hin as [Hin|Hin]; auto.
+      apply in_map_iff in Hin. destruct Hin as (e & <- & He). auto.
   Qed.
 End Steps.
